@@ -1,5 +1,5 @@
 \* what if Extract materialised links behind a lexical guard (seeded C20-2)?  expected: Containment violated by a chain
-CONSTANTS TitleClean = "rooted" ExtractGuard = "reroot" LinkPolicy = "lexical" DeleteValidates = TRUE MaxFull = 1 MaxCore = 1
+CONSTANTS TitleClean = "rooted" ExtractGuard = "reroot" Whiteout = "none" LinkPolicy = "lexical" DeleteValidates = TRUE MaxFull = 1 MaxCore = 1
   Eps = {"lnk"}
 SPECIFICATION Spec
 INVARIANTS Containment
